@@ -16,6 +16,7 @@ from .. import pollute
 
 BEFORE_CASE = pollute.wreck        # state-leak adversary: see vmon/pollute.py
 
+PYTHON_O_STRIDE = {"quick": 4, "thorough": 2}      # every n-th case is repeated in an interpreter started with -O
 RULE = ("family x parameters x formula class: ordering principle N in 0..5 and graph ordering on every graph with <= 4 vertices x "
         "{plain,total,smart,knuth2,knuth3} x plant; pebbling on every DAG (topological order) with <= 5 vertices; stone s in 0..3 and "
         "sparse stone with every availability graph <= (4,2) on DAGs with <= 4 vertices; CPLS (a,b,c) under the cap; Pitfall "
